@@ -158,6 +158,27 @@ func VH_C05_notify() {
 			continue
 		}
 		v.Assert(ev.stat != nil && vh_specIdentity(ev.stat, e.stat) && ev.stat.Path == p, "the event carries the new metadata as sent")
+		// ... and that metadata is what the destination now holds (applying the events to a model of the
+		// old destination yields the new destination)
+		if ev.stat != nil {
+			for i := range newSnap {
+				d := &newSnap[i]
+				if d.Path != p {
+					continue
+				}
+				wantGid := ev.stat.Gid
+				if useFilter {
+					wantGid = filterGid
+				}
+				v.Assert(d.Uid == ev.stat.Uid && d.Gid == wantGid, "the stored owner is the reported one")
+				if d.Kind != m.KSymlink {
+					v.Assert(d.Perm == vh_goModeToUnixPerm(ev.stat.Mode), "the stored mode is the reported one")
+				}
+				if d.Kind != m.KDir {
+					v.Assert(d.Mtime == ev.stat.ModTime, "the stored mtime of a non-directory is the reported one")
+				}
+			}
+		}
 		// digest: header as sent followed by exactly the bytes now stored (header only without content)
 		want := vh_headerOf(e.stat)
 		if os.FileMode(e.stat.Mode)&os.ModeType == 0 && e.stat.Linkname == "" {
